@@ -111,10 +111,17 @@ def captureRow (root : List Nest) : M (Option (Nat × Nat × Nat)) :=
   | some (.list rows) => if rows.isEmpty then pure none else pure (some (root.length - 1, rows.length - 1, rows.length))
   | some (.par _) => .error .modelLimit
 
+/-- number of rows of table `ti` -/
+def rowCount (root : List Nest) (ti : Nat) : Nat :=
+  match root[ti]? with | some (.list rows) => rows.length | _ => 0
+
+/-- `this_tr` is the row captured *before* the caret is moved; `prev_tr = this_tbl[-2]` is looked
+up *after* `set_caret(3)`, which appends a row when the caret stood above row level (a block
+content control inside the cell leaves it there): then `this_tbl[-2]` is `this_tr` itself. -/
 def vmergeDo (ti ri : Nat) (s : DC) : M DC :=
   (s.setCaret (some 3) none) >>= fun s1 =>
   (getRow s1.root ti ri) >>= fun thisTr =>
-  (getRow s1.root ti (ri - 1)) >>= fun prevTr =>
+  (getRow s1.root ti (rowCount s1.root ti - 2)) >>= fun prevTr =>
   if thisTr.isEmpty then pure s1 else
   match prevTr[thisTr.length - 1]? with
   | none => pure s1
